@@ -252,6 +252,8 @@ func implC15(line string) string {
 		return withVM(func(vm *otto.Otto) string { return implJS(vm, f[1], f[2]) })
 	case "call":
 		return withVM(func(vm *otto.Otto) string { return implCall(vm, f) })
+	case "callx":
+		return withVM(func(vm *otto.Otto) string { return implCallX(vm, f) })
 	case "jsh":
 		return withVM(func(vm *otto.Otto) string { return implJSH(vm, f[1], f[2], f[3]) })
 	}
@@ -898,6 +900,185 @@ func genCalls(c *h.Ctx) {
 	}
 }
 
+// ---------------------------------------------------------------- calls of callees with side effects
+
+const probeXSrc = `
+var count=0, log=[];
+function tagOf(t){ if(t===glob)return "global"; if(t===obj)return "self"; if(t instanceof probe)return "instance"; return "boxed:"+obs(t.valueOf()) }
+function mk(b){ return function(){ count++; var t=tagOf(this); log.push(t);
+  if(b==="throwTypeError") throw new TypeError("t:"+t+":"+count);
+  if(b==="throwOnce" && count===1) throw new Error("t:"+t+":"+count);
+  if(b==="throwValue") throw "s:"+t;
+  var a=[]; for(var i=0;i<arguments.length;i++)a.push(obs(arguments[i])); return t+"|"+a.join(";") } }
+function langRun(f){ try { var r=f(); return (typeof r==="object"||typeof r==="function") ? "ret:object" : "ret:"+r }
+  catch(e){ return (e instanceof Error) ? "throw:"+e.name+":"+e.message : "throw:value:"+String(e) } }
+`
+
+func outcomeTok(v otto.Value, err error) string {
+	if err != nil {
+		if oe, ok := err.(*otto.Error); ok {
+			msg := oe.Error()
+			if i := strings.Index(msg, ": "); i > 0 {
+				return "throw:" + msg[:i] + ":" + msg[i+2:]
+			}
+			return "throw:" + msg
+		}
+		return "throw:value:" + err.Error()
+	}
+	if v.IsObject() {
+		return "ret:object"
+	}
+	s, _ := v.ToString()
+	return "ret:" + s
+}
+
+// implCallX: callx <kind> <m|p> <this> <exit> <args…>  ->  "<outcome>/<invocations>/<this log>" for the API call,
+// "#", and the same for the equivalent in-language call, each starting from a fresh counter.
+func implCallX(vm *otto.Otto, f []string) string {
+	if _, err := vm.Run(probeSrc + probeXSrc + "var probe=mk('" + f[4] + "'); obj={probe:probe};"); err != nil {
+		return errTok(err)
+	}
+	kind, member, thisTok := f[1], f[2] == "m", f[3]
+	var args []interface{}
+	var names []string
+	for i, a := range f[5:] {
+		g := parseGo(a)
+		args = append(args, g)
+		n := fmt.Sprintf("a%d", i)
+		if err := vm.Set(n, g); err != nil {
+			return errTok(err)
+		}
+		names = append(names, n)
+	}
+	src := "probe"
+	if member {
+		src = "obj.probe"
+	}
+	argList := strings.Join(names, ",")
+	callList := argList
+	if callList != "" {
+		callList = "," + callList
+	}
+	state := func() string {
+		v, err := vm.Run(`count + "/" + log.join(",")`)
+		if err != nil {
+			return errTok(err)
+		}
+		s, _ := v.ToString()
+		vm.Run(`count=0; log=[];`)
+		return s
+	}
+	lang := func(expr string) string {
+		v, err := vm.Run("langRun(function(){ return " + expr + " })")
+		if err != nil {
+			return errTok(err)
+		}
+		s, _ := v.ToString()
+		return s + "/" + state()
+	}
+	var api, lg string
+	switch kind {
+	case "vcall":
+		fn, _ := vm.Get("probe")
+		var this otto.Value
+		expr := "probe.call(obj" + callList + ")"
+		if thisTok == "self" {
+			this, _ = vm.Get("obj")
+		} else {
+			g := parseGo(thisTok)
+			var err error
+			if this, err = vm.ToValue(g); err != nil {
+				return errTok(err)
+			}
+			vm.Set("T", g)
+			expr = "probe.call(T" + callList + ")"
+		}
+		api = outcomeTok(fn.Call(this, args...)) + "/" + state()
+		lg = lang(expr)
+	case "ocall":
+		ov, _ := vm.Get("obj")
+		api = outcomeTok(ov.Object().Call("probe", args...)) + "/" + state()
+		lg = lang("obj.probe(" + argList + ")")
+	case "gcall":
+		api = outcomeTok(vm.Call(src, nil, args...)) + "/" + state()
+		lg = lang(src + "(" + argList + ")")
+	case "gcallT":
+		g := parseGo(thisTok)
+		api = outcomeTok(vm.Call(src, g, args...)) + "/" + state()
+		vm.Set("T", g)
+		lg = lang("(" + src + ").call(T" + callList + ")")
+	case "gnew":
+		var this interface{}
+		if thisTok != "-" {
+			this = parseGo(thisTok)
+		}
+		api = outcomeTok(vm.Call("new "+src, this, args...)) + "/" + state()
+		lg = lang("new " + src + "(" + argList + ")")
+	default:
+		return "bad-op"
+	}
+	return api + "#" + lg
+}
+
+var exits = []string{"ret", "throwTypeError", "throwOnce", "throwValue"}
+
+func genCallsX(c *h.Ctx) {
+	r := c.Rng
+	pick := func() string { return callVals[r.Intn(len(callVals))] }
+	argsOf := func() string {
+		n := r.Intn(3)
+		s := ""
+		for i := 0; i < n; i++ {
+			s += " " + pick()
+		}
+		return s
+	}
+	for _, ex := range exits {
+		for _, m := range []string{"m", "p"} {
+			c.Add("callx gcall "+m+" - "+ex, "callx:gcall", "exit:"+ex)
+			c.Add("callx gcall "+m+" - "+ex+" int:5 s:6162", "callx:gcall", "exit:"+ex)
+			c.Add("callx gnew "+m+" - "+ex, "callx:gnew", "exit:"+ex)
+			c.Add("callx gnew "+m+" int:5 "+ex+" b:1", "callx:gnew", "exit:"+ex)
+			for _, t := range []string{"int:5", "s:6162", "b:1", "N(s:71)", "P(int:6)", "Z(int)"} {
+				c.Add("callx gcallT "+m+" "+t+" "+ex, "callx:gcallT", "exit:"+ex)
+			}
+		}
+		c.Add("callx ocall m - "+ex, "callx:ocall", "exit:"+ex)
+		c.Add("callx ocall m - "+ex+" nil f64:4000000000000000", "callx:ocall", "exit:"+ex)
+		for _, t := range []string{"self", "nil", "int:5", "s:6162", "b:0", "u64:7"} {
+			c.Add("callx vcall p "+t+" "+ex, "callx:vcall", "exit:"+ex)
+		}
+	}
+	for i := 0; i < c.N(4000, 150000); i++ {
+		ex := exits[r.Intn(len(exits))]
+		m := []string{"m", "p"}[r.Intn(2)]
+		switch r.Intn(5) {
+		case 0:
+			t := pick()
+			if r.Chance(15) {
+				t = "self"
+			}
+			c.Add("callx vcall p "+t+" "+ex+argsOf(), "callx:vcall", "exit:"+ex)
+		case 1:
+			c.Add("callx ocall m - "+ex+argsOf(), "callx:ocall", "exit:"+ex)
+		case 2:
+			c.Add("callx gcall "+m+" - "+ex+argsOf(), "callx:gcall", "exit:"+ex)
+		case 3:
+			t := pick()
+			if t == "nil" {
+				t = "-"
+			}
+			c.Add("callx gnew "+m+" "+t+" "+ex+argsOf(), "callx:gnew", "exit:"+ex)
+		default:
+			t := pick()
+			if t == "nil" {
+				continue
+			}
+			c.Add("callx gcallT "+m+" "+t+" "+ex+argsOf(), "callx:gcallT", "exit:"+ex)
+		}
+	}
+}
+
 // ---------------------------------------------------------------- generators
 
 type intKind struct {
@@ -1095,5 +1276,6 @@ func genC15(c *h.Ctx) {
 	}
 	genJS(c, base, bd)
 	genCalls(c)
+	genCallsX(c)
 	genHeaps(c, base, bd)
 }
